@@ -153,41 +153,66 @@ Proof.
   cbn [bind]. rewrite <- !app_assoc. reflexivity.
 Qed.
 
-(* ---------- flags: exhaustive sweep over the 2^16 header words ---------- *)
-Definition flags_case (q aa tc rd ra : bool) (op res rc : N) : bool :=
-  let f := flags_of (mkMsg 0 q op aa tc rd ra res rc [] [] [] []) in
-  (f <? 65536)%N && Bool.eqb (negb (bit f 15)) q && ((f / 2048) mod 16 =? op)%N
-  && Bool.eqb (bit f 10) aa && Bool.eqb (bit f 9) tc && Bool.eqb (bit f 8) rd && Bool.eqb (bit f 7) ra
-  && ((f / 16) mod 8 =? res)%N && (f mod 16 =? rc)%N.
-
-Definition upto (k : nat) : list N := map N.of_nat (seq 0 k).
-Lemma upto_complete k n : (n < N.of_nat k)%N -> In n (upto k).
+(* ---------- flags: field extraction from the packed flag word ---------- *)
+Lemma extract (f hi x lo s w : N) : (s <> 0 -> w <> 0 -> f = hi * (s * w) + x * s + lo ->
+  lo < s -> x < w -> (f / s) mod w = x)%N.
 Proof.
-  intros H. unfold upto. rewrite <- (Nnat.N2Nat.id n). apply in_map, in_seq. lia.
+  intros Hs Hw -> Hlo Hx.
+  replace (hi * (s * w) + x * s + lo)%N with (lo + (x + hi * w) * s)%N by ring.
+  rewrite N.div_add by exact Hs. rewrite (N.div_small lo s Hlo), N.add_0_l.
+  rewrite N.mod_add by exact Hw. apply N.mod_small, Hx.
 Qed.
 
-Definition bools := [false; true].
-Definition flags_sweep : bool :=
-  forallb (fun q => forallb (fun aa => forallb (fun tc => forallb (fun rd => forallb (fun ra =>
-  forallb (fun op => forallb (fun res => forallb (fun rc => flags_case q aa tc rd ra op res rc)
-  (upto 16)) (upto 8)) (upto 16)) bools) bools) bools) bools) bools.
-
-Lemma flags_sweep_ok : flags_sweep = true.
-Proof. vm_compute. reflexivity. Qed.
-
-Lemma flags_case_ok q aa tc rd ra op res rc :
-  (op < 16)%N -> (res < 8)%N -> (rc < 16)%N -> flags_case q aa tc rd ra op res rc = true.
+Lemma flags_num q aa tc rd ra op res rc : (op < 16)%N -> (res < 8)%N -> (rc < 16)%N ->
+  let f := (b2n (negb q) 32768 + op * 2048 + b2n aa 1024 + b2n tc 512 + b2n rd 256 + b2n ra 128
+            + res * 16 + rc)%N in
+  (f < 65536 /\ (f / 32768) mod 2 = b2n (negb q) 1 /\ (f / 2048) mod 16 = op
+   /\ (f / 1024) mod 2 = b2n aa 1 /\ (f / 512) mod 2 = b2n tc 1 /\ (f / 256) mod 2 = b2n rd 1
+   /\ (f / 128) mod 2 = b2n ra 1 /\ (f / 16) mod 8 = res /\ f mod 16 = rc)%N.
 Proof.
-  intros Hop Hres Hrc. pose proof flags_sweep_ok as H. unfold flags_sweep in H.
-  assert (Bq : forall b : bool, In b bools) by (intros []; cbn; auto).
-  rewrite forallb_forall in H. specialize (H q (Bq q)).
-  rewrite forallb_forall in H. specialize (H aa (Bq aa)).
-  rewrite forallb_forall in H. specialize (H tc (Bq tc)).
-  rewrite forallb_forall in H. specialize (H rd (Bq rd)).
-  rewrite forallb_forall in H. specialize (H ra (Bq ra)).
-  rewrite forallb_forall in H. specialize (H op (upto_complete 16 op Hop)).
-  rewrite forallb_forall in H. specialize (H res (upto_complete 8 res Hres)).
-  rewrite forallb_forall in H. exact (H rc (upto_complete 16 rc Hrc)).
+  intros Hop Hres Hrc f. subst f.
+  set (nq := negb q).
+  repeat split.
+  - destruct nq, aa, tc, rd, ra; cbn [b2n]; lia.
+  - apply (extract _ 0 _ (op * 2048 + b2n aa 1024 + b2n tc 512 + b2n rd 256 + b2n ra 128 + res * 16 + rc) 32768 2);
+      try lia; destruct nq, aa, tc, rd, ra; cbn [b2n]; lia.
+  - apply (extract _ (b2n nq 1) _ (b2n aa 1024 + b2n tc 512 + b2n rd 256 + b2n ra 128 + res * 16 + rc) 2048 16);
+      try lia; destruct nq, aa, tc, rd, ra; cbn [b2n]; lia.
+  - apply (extract _ (b2n nq 16 + op) _ (b2n tc 512 + b2n rd 256 + b2n ra 128 + res * 16 + rc) 1024 2);
+      try lia; destruct nq, aa, tc, rd, ra; cbn [b2n]; lia.
+  - apply (extract _ (b2n nq 32 + op * 2 + b2n aa 1) _ (b2n rd 256 + b2n ra 128 + res * 16 + rc) 512 2);
+      try lia; destruct nq, aa, tc, rd, ra; cbn [b2n]; lia.
+  - apply (extract _ (b2n nq 64 + op * 4 + b2n aa 2 + b2n tc 1) _ (b2n ra 128 + res * 16 + rc) 256 2);
+      try lia; destruct nq, aa, tc, rd, ra; cbn [b2n]; lia.
+  - apply (extract _ (b2n nq 128 + op * 8 + b2n aa 4 + b2n tc 2 + b2n rd 1) _ (res * 16 + rc) 128 2);
+      try lia; destruct nq, aa, tc, rd, ra; cbn [b2n]; lia.
+  - apply (extract _ (b2n nq 256 + op * 16 + b2n aa 8 + b2n tc 4 + b2n rd 2 + b2n ra 1) _ rc 16 8);
+      try lia; destruct nq, aa, tc, rd, ra; cbn [b2n]; lia.
+  - rewrite <- (N.div_1_r (_ + rc)).
+    apply (extract _ (b2n nq 2048 + op * 128 + b2n aa 64 + b2n tc 32 + b2n rd 16 + b2n ra 8 + res) _ 0 1 16);
+      try lia; destruct nq, aa, tc, rd, ra; cbn [b2n]; lia.
+Qed.
+
+Lemma bit_b2n f k b : ((f / 2 ^ k) mod 2 = b2n b 1)%N -> bit f k = b.
+Proof. intros H. unfold bit. rewrite H. destruct b; reflexivity. Qed.
+
+
+Lemma flags_fields m : (m_op_code m < 16)%N -> (m_reserved m < 8)%N -> (m_rcode m < 16)%N ->
+  (flags_of m < 65536)%N /\ negb (bit (flags_of m) 15) = m_query m
+  /\ ((flags_of m / 2048) mod 16 = m_op_code m)%N
+  /\ bit (flags_of m) 10 = m_aa m /\ bit (flags_of m) 9 = m_tc m /\ bit (flags_of m) 8 = m_rd m
+  /\ bit (flags_of m) 7 = m_ra m
+  /\ ((flags_of m / 16) mod 8 = m_reserved m)%N /\ (flags_of m mod 16 = m_rcode m)%N.
+Proof.
+  intros Hop Hres Hrc.
+  destruct (flags_num (m_query m) (m_aa m) (m_tc m) (m_rd m) (m_ra m) _ _ _ Hop Hres Hrc)
+    as (Fl & B15 & Fop & B10 & B9 & B8 & B7 & Fres & Frc).
+  unfold flags_of. repeat split; try assumption.
+  - rewrite (bit_b2n _ 15 (negb (m_query m))) by exact B15. apply negb_involutive.
+  - apply (bit_b2n _ 10); exact B10.
+  - apply (bit_b2n _ 9); exact B9.
+  - apply (bit_b2n _ 8); exact B8.
+  - apply (bit_b2n _ 7); exact B7.
 Qed.
 
 (* ---------- questions ---------- *)
@@ -297,11 +322,7 @@ Proof.
   intros Hwf G. split; [apply packed_ok, Hwf|].
   destruct Hwf as (Hid & Hop & Hres & Hrc & Lq & La & Ln & Lx & Fq & Fa & Fn & Fx).
   unfold all_rrs in G. rewrite !Forall_app in G. destruct G as (Ga & Gn & Gx).
-  pose proof (flags_case_ok (m_query m) (m_aa m) (m_tc m) (m_rd m) (m_ra m) _ _ _ Hop Hres Hrc) as Fl.
-  unfold flags_case in Fl. cbn [flags_of m_query m_op_code m_aa m_tc m_rd m_ra m_reserved m_rcode] in Fl.
-  fold (flags_of m) in Fl.
-  repeat (apply andb_true_iff in Fl as [Fl ?F]).
-  apply N.ltb_lt in Fl.
+  destruct (flags_fields m Hop Hres Hrc) as (Fl & B15 & Fop & B10 & B9 & B8 & B7 & Fres & Frc).
   unfold DnsMessage.unpack, DnsMessage.unpack_from, msgwire, hdrwire, all_rrs.
   cbn [skipn put_u16be app].
   rewrite !u16be_put' by lia. rewrite !Nnat.Nat2N.id.
@@ -328,6 +349,6 @@ Proof.
     rewrite S0 in SL. cbn [length] in SL.
     assert (12 <= length buf) by (unfold buf; cbn [length]; lia).
     unfold buf in *. cbn [length] in *. rewrite !flat_map_app, !app_length in *. lia. }
-  rewrite Hlen, Nat.eqb_refl.
-  apply negb_true_iff in F6. (* placeholder, fixed below *)
-Abort.
+  rewrite Hlen, Nat.eqb_refl. rewrite B15, Fop, B10, B9, B8, B7, Fres, Frc.
+  destruct m; reflexivity.
+Qed.
